@@ -52,6 +52,25 @@ Theorem C09_tasks_balanced : forall f fd b c r,
 Proof. exact (tasks_balanced_sound generated_prog generated_ok). Qed.
 Print Assumptions C09_tasks_balanced.
 
+(* close_idempotent: a thread that holds nothing calls Conn.Close any number of times -- no lock
+   violation ever, and whenever the sequence completes, c.mu, the sender lock and all task
+   obligations are free again.  (RAbort = a Go panic inside: excluded by C08's theorems, not
+   here.  That each Close RETURNS is a liveness statement: see docs/C09.md section 7 for the
+   environment assumptions it needs; it is observed by the harness for every enumerated fault.) *)
+Theorem C09_close_idempotent : forall n r,
+  exec generated_prog (calls (repeat close_id n)) empty_state r ->
+  r = RNorm empty_state \/ r = RAbort.
+Proof. exact close_idempotent_lock. Qed.
+Print Assumptions C09_close_idempotent.
+
+(* the same for any sequence of exported methods / handlers callable with nothing held *)
+Theorem C09_api_sequences_hold_nothing : forall l r,
+  forallb (api_callable generated_prog) l = true ->
+  exec generated_prog (calls l) empty_state r ->
+  r = RNorm empty_state \/ r = RAbort.
+Proof. exact api_sequences_lock. Qed.
+Print Assumptions C09_api_sequences_hold_nothing.
+
 (* the checker itself, for all programs *)
 Theorem C09_checker_sound : forall P, check_prog P = true ->
   forall f fd b c r,
@@ -67,7 +86,8 @@ Print Assumptions C09_checker_sound.
 
 (* ---- transport --------------------------------------------------------------------------- *)
 
-(* for all message sequences and all fault schedules (every outcome of every Write): the bytes
+(* for all message sequences, all fault schedules (every outcome of every Write) and all context
+   behaviours (live, already done, cancelled between two Writes of a frame): the bytes
    on the wire are whole frames, in order, plus at most one torn frame, and once a frame is
    torn every later NewMessage/send fails without writing *)
 Theorem C09_torn_write_stops_stream : forall orc ops st rs,
@@ -80,8 +100,8 @@ Print Assumptions C09_torn_write_stops_stream.
 (* a Write that returns 0 < n < len is the last thing that reaches the wire *)
 Theorem C09_after_short_write_nothing_written : forall orc ops1 f ops2 st1 rs1 st1' w,
   run VFixed orc ops1 = (st1, rs1) -> broken st1 = false ->
-  encode_bufs orc f st1 0 = (st1', w, EPartial) ->
-  forall st rs, run VFixed orc (ops1 ++ (false, f) :: ops2) = (st, rs) ->
+  encode_bufs orc f st1 0 None = (st1', w, EPartial) ->
+  forall st rs, run VFixed orc (ops1 ++ (CLive, f) :: ops2) = (st, rs) ->
   wire st = wire st1' /\ rs = rs1 ++ SErr :: map (fun _ => SNmErr) ops2.
 Proof. exact after_short_write_nothing_written. Qed.
 Print Assumptions C09_after_short_write_nothing_written.
